@@ -411,14 +411,30 @@ def conditional_guard(ctx, key, b, sinks, cond_spec, then_specs, desc, rule='R-d
                       witness=fmt_path(b, wit), site=site(b, wit[-1]))
         return False
     for c in cs:
-        t = b.blocks[c]['t']
-        te = t['else'] if true_edge == 'else' else t['targets'][0][1]
-        for spec in then_specs:
-            gs = [g for g, _ in guard_switches(b, sinks, [spec])]
-            p = b.find_path(te, set(sinks), removed=frozenset(gs))
-            if p is not None:
-                ctx.violation(key, rule, desc, function=b.path, missing='on the %s edge of the %s branch the sink is reachable without a rejecting check on %s' % (true_edge, cond_spec, spec),
-                              witness=fmt_path(b, p), site=site(b, p[-1]))
-                return False
+        # one edge of the condition branch must lead to the sink only through rejecting checks on every then_spec
+        # (which edge is the `condition holds` edge depends on how rustc lowered `!a && b`; polarity is not decided)
+        succs = [j for j, _ in b.succ(c)]
+        best = None
+        for te in succs:
+            fail = None
+            # the condition is assumed loop-invariant: while exploring edge te the other edges of c do not exist
+            other = frozenset((c, j) for j in succs if j != te)
+            for spec in then_specs:
+                gs = [g for g, _ in guard_switches(b, sinks, [spec], removed_edges=other)]
+                if not gs:
+                    fail = ('no rejecting branch deriving from %s exists' % spec, b.find_path(te, set(sinks)))
+                    break
+                p = b.find_path(te, set(sinks), removed=frozenset(gs), removed_edges=other)
+                if p is not None:
+                    fail = ('on an edge of the %s branch the sink is reachable without a rejecting check on %s' % (cond_spec, spec), p)
+                    break
+            if fail is None:
+                best = None
+                break
+            best = fail
+        else:
+            ctx.violation(key, rule, desc, function=b.path, missing=best[0], witness=fmt_path(b, best[1]) if best[1] else None,
+                          site=site(b, c))
+            return False
     ctx.ok(key, rule, desc, function=b.path, guards=[site(b, c) for c in cs], sinks=[site(b, s) for s in sinks])
     return True
